@@ -554,6 +554,57 @@ theorem streamDouble_of_parse {sci : Char} (hsci : sci = 'e' ∨ sci = 'E') {s :
       rw [this] at h; cases h
     · exact streamUnsigned_of_parse hsci h
 
+/-! ### the translation of custom characters -/
+
+theorem trChar_digits {dec sci : Char} (hd : isDigit dec = false) (hs : isDigit sci = false) {l : Str}
+    (h : AllDigits l) : l.map (trChar dec sci) = l := by
+  induction l with
+  | nil => rfl
+  | cons c r ih =>
+    have hc := h c (by simp)
+    have e1 : (c == dec) = false := isDigit_ne hc hd
+    have e2 : (c == sci) = false := isDigit_ne hc hs
+    simp only [List.map_cons, trChar, e1, e2, Bool.false_eq_true, if_false]
+    rw [ih (fun x hx => h x (by simp [hx]))]
+
+/-- the numeral written with the caller's characters, translated, is the numeral written with the
+stream's characters -/
+theorem map_trChar_render {dec sci : Char} (hs : SaneChars dec sci) (p : DecParts) (hwf : p.WF) :
+    (p.render dec sci).map (trChar dec sci) = p.render '.' 'e' := by
+  obtain ⟨hne, hdd, hds, hdm, hdp, hsm, hsp, _, _⟩ := hs
+  obtain ⟨h1, h2, _, _, h5⟩ := hwf
+  have tdec : trChar dec sci dec = '.' := by simp [trChar]
+  have tsci : trChar dec sci sci = 'e' := by
+    have : (sci == dec) = false := by simpa using fun e => hne e.symm
+    simp [trChar, this]
+  have tminus : trChar dec sci '-' = '-' := by
+    have a : ('-' == dec) = false := by simpa using fun e => hdm e.symm
+    have b : ('-' == sci) = false := by simpa using fun e => hsm e.symm
+    simp [trChar, a, b]
+  have tplus : trChar dec sci '+' = '+' := by
+    have a : ('+' == dec) = false := by simpa using fun e => hdp e.symm
+    have b : ('+' == sci) = false := by simpa using fun e => hsp e.symm
+    simp [trChar, a, b]
+  unfold DecParts.render
+  simp only [List.map_append]
+  rw [trChar_digits hdd hds h1]
+  congr 1
+  · congr 1
+    · congr 1
+      cases p.neg <;> simp [tminus]
+    · cases p.hasDec
+      · rfl
+      · simp only [if_true, List.map_cons, tdec, trChar_digits hdd hds h2]
+  · cases hex : p.ex with
+    | none => rfl
+    | some e =>
+      obtain ⟨sg, ds⟩ := e
+      rw [hex] at h5
+      simp only at h5
+      obtain ⟨hsg, hdsd, _⟩ := h5
+      simp only [List.map_cons, List.map_append, tsci, trChar_digits hdd hds hdsd]
+      rcases hsg with rfl | rfl | rfl <;> simp [tminus, tplus]
+
 /-! ### integers: the loop of `isDecimalInteger`, its grammar and values -/
 
 section IntLoop
